@@ -172,8 +172,16 @@ def _heading_text(r):
     for _ in range(r.randint(1, 4)):
         w = r.choice(WORDS)
         k = r.random()
-        if k < 0.4:
+        if k < 0.3:
             parts.append(w)
+        elif k < 0.34:
+            parts.append("_" + w + "_")
+        elif k < 0.37:
+            parts.append("__" + w + "__")
+        elif k < 0.39:
+            parts.append("\\*" + w + "\\_")
+            plain.append("*" + w + "_")
+            continue
         elif k < 0.55:
             parts.append("*" + w + "*")
         elif k < 0.65:
@@ -373,7 +381,7 @@ def oracle(ctx, extra):
             "failures": fails, "exhaustive": False,
             "rule": "render_toc_ul: ALL level sequences over 1..6 up to length %d plus random long ones (also levels "
                     "outside 1..6), output parsed by a strict ul/li/a reader and compared with the closest-preceding-"
-                    "shallower tree; documents: random mixes of atx/setext headings with inline markup, paragraphs, "
+                    "shallower tree; documents: random mixes of atx/setext headings with inline markup (star and underscore emphasis, code, links, backslash escapes, & and <), paragraphs, "
                     "headings nested in quotes/lists (must be ignored), toc sections with ranges, via add_toc_hook and "
                     "via the TableOfContents directive, escape on/off; ids, order, listed items, entry text checked; "
                     "non-trivial = at least two distinct levels / at least one heading" % ctx.n(5, 7),
